@@ -237,6 +237,8 @@ func (r *receiver) run(ctx context.Context) error {
 				var metaOnly bool
 				if metadataTransfer {
 					if path == metadataPath {
+						// not transferred, but the sender counted this STAT: keep ids aligned
+						i++
 						continue
 					}
 					n := p.Stat.SizeVT()
